@@ -139,11 +139,11 @@ def run(ctx, rep):
             if nm in NON_SYMBOLIC:
                 rep.notes.append("%s exempt: %s" % (nm, NON_SYMBOLIC[nm]))
                 continue
-            n_tabs += 1
             if t["scrutinee"] is None or t["scrutinee"] not in t["params"]:
-                rep.bad("to-str-arm", "to_str::%s" % nm, where(t["span"]),
-                        "UNRECOGNISED: match scrutinee is not the function parameter")
+                # not a plain `match param { .. }` (an if-chain, a masked scrutinee, ...): decided by the value-based rule below alone
                 continue
+            n_tabs += 1
+            delegates = False
             for arm in t["arms"]:
                 w = where(arm["span"])
                 val = arm["value"]
@@ -154,8 +154,10 @@ def run(ctx, rep):
                     rep.bad("to-str-arm", "to_str::%s:guard" % nm, w, "UNRECOGNISED: guarded arm")
                     continue
                 if arm["pat"] == "wild" or arm["pat"] == "binding":
-                    rep.require(val.get("path") == "None", "to-str-arm", "to_str::%s:_" % nm, w, "default arm is None",
-                                "default arm of %s returns a value for unnamed numbers: %r" % (nm, val))
+                    if val.get("path") != "None":
+                        # the default arm hands the value on (to a private helper holding the rest of the table): what comes back for
+                        # which value is decided by the value-based rule below
+                        rep.notes.append("%s: default arm is not the literal None (%r): judged by value" % (nm, val))
                     continue
                 n_arms += 1
                 if arm["pat"] == "const":
@@ -179,8 +181,53 @@ def run(ctx, rep):
                                 % (nm, arm.get("val"), lit))
                 else:
                     rep.bad("to-str-arm", "to_str::%s:?" % nm, w, "UNRECOGNISED pattern kind %s" % arm["pat"])
-        rep.floor("to-str-arm", "symbolic tables", n_tabs, 10)
-        rep.floor("to-str-arm", "arms", n_arms, 300)
+        # ---- the same tables judged by value on the type-checked program (insensitive to how the table is written: match, if-chain,
+        # helper holding part of it): every outcome Some("NAME") is reached exactly under `param == abi::NAME` for an exported constant
+        # NAME; every other outcome is None
+        from ..engine import analyze_fn as _an_fn
+        from ..terms import T as _T
+        n_vt = n_varms = 0
+        for fn_ in f.all_fns():
+            nm = fn_["qual"].split("::")[-1]
+            if fn_["module"] != "to_str" or fn_.get("kind") == "Closure" or not fn_.get("reachable_pub") or not nm.endswith("_to_str") \
+                    or nm.endswith("_to_human_str") or nm in NON_SYMBOLIC:
+                continue
+            n_vt += 1
+            w = where(fn_["span"])
+            an_ = _an_fn(f, fn_)
+            lv = an_.ret_leaves()
+            if lv is not None and any(t_.has_tree() for t_, _ in lv):
+                lv = an_.expand_trees(lv)
+            if lv is None:
+                rep.bad("to-str-value", "to_str::%s" % nm, w, "UNRECOGNISED: cannot enumerate the outcomes of %s" % nm)
+                continue
+            p1_ = _T.param(1)
+            msgs = []
+            for t_, st_ in lv:
+                if t_.op == "agg" and t_.args[3] == "None":
+                    continue
+                lit_ = None
+                if t_.op == "agg" and t_.args[3] == "Some" and t_.args[4] and t_.args[4][0].op == "bytes":
+                    try:
+                        lit_ = bytes(t_.args[4][0].args[0]).decode()
+                    except Exception:
+                        lit_ = None
+                if lit_ is None:
+                    msgs.append("UNRECOGNISED outcome %s" % repr(t_)[:80])
+                    continue
+                n_varms += 1
+                c_ = abi_consts.get(lit_)
+                vals_ = {g[2] for g in st_.facts if g[0] == "eq" and _same_value(g[1], p1_)}
+                if c_ is None or "val" not in c_ or not c_["reachable_pub"]:
+                    msgs.append("%r is not the identifier of an exported constant" % lit_)
+                elif vals_ != {int(c_["val"])}:
+                    msgs.append("%r is returned under %s, expected exactly for the value %s of abi::%s"
+                                % (lit_, ("values %s" % sorted(vals_)) if vals_ else "a condition other than a test of the parameter for one value", c_["val"], lit_))
+            rep.require(not msgs, "to-str-value", "to_str::%s" % nm, w, "every Some(name) is reached exactly for the value of the exported constant of that name; all else None",
+                        "%s: %s" % (nm, "; ".join(msgs[:4])))
+        rep.floor("to-str-value", "symbolic tables", n_vt, 10)
+        rep.floor("to-str-value", "named outcomes", n_varms, 300)
+        rep.floor("to-str-arm", "arms", n_arms, 0)
 
         # ------------------------------------------------------------ (d) *_to_string
         if "alloc" in f["config"]["features"]:
@@ -198,6 +245,25 @@ def run(ctx, rep):
 
     if ctx.tier == "thorough":
         thorough(ctx, rep)
+
+
+def _same_value(t, p, depth=0):
+    """t is p seen through value-preserving conversions: From / Into, a successful try_from / try_into, a widening `as`"""
+    from ..terms import INT_BITS, SIGNED
+    if t is p:
+        return True
+    if depth > 4:
+        return False
+    if t.op == "call" and t.args[0] in ("convert::From::from", "convert::Into::into") and len(t.args[2]) == 1:
+        return _same_value(t.args[2][0], p, depth + 1)
+    if t.op == "payload" and t.args[1] == "Ok" and t.args[0].op == "call" and t.args[0].args[0] in ("convert::TryFrom::try_from", "convert::TryInto::try_into") \
+            and len(t.args[0].args[2]) == 1:
+        return _same_value(t.args[0].args[2][0], p, depth + 1)
+    if t.op == "cast" and t.args[0] == "IntToInt":
+        frm, to = t.args[2], t.args[3]
+        if frm in INT_BITS and to in INT_BITS and (INT_BITS[to] > INT_BITS[frm] and (frm not in SIGNED or to in SIGNED)):
+            return _same_value(t.args[1], p, depth + 1)
+    return False
 
 
 def check_to_string(f, fn, rep, analyze_fn):
